@@ -439,10 +439,30 @@ def pushes(prog, rep, tag):
     if ok:
         pr = Prov(b)
         ln = pr.of_operand(fl[0].args[0])
-        mins = [c for c in b.calls() if (c.decl_s or "").endswith("::min")]
-        # the written slice is bytes[0..len] with the same len
-        idx = [c for c in b.calls() if c.is_("Index::index") and any(x[0] == "agg" and x[1] in ("Range", "RangeTo") for x in pr.of_operand(c.args[1]))]
-        ok = len(mins) >= 1 and any(x[0] == "call" and x[1].endswith("::min") for x in ln) and bool(idx) and any(any(x[0] == "call" and x[1].endswith("::min") for x in pr.of_operand(c.args[1])) for c in idx)
+        # announced length = min(space, data length) in any form; the written slice is bytes[0..len] / bytes[..len] with
+        # that same value
+        m_op = fl[0].args[0]
+        m = q.as_min(b, m_op)
+        if m is None:
+            # through a cast (`as u16`)
+            pl_ = op_place(m_op)
+            for d_ in (b.defs().get(pl_["l"], []) if pl_ is not None and not pl_["p"] else []):
+                if d_[2] == "assign" and d_[3]["rv"]["k"] == "cast" and q.as_min(b, d_[3]["rv"]["a"][0]) is not None:
+                    m_op = d_[3]["rv"]["a"][0]
+                    m = q.as_min(b, m_op)
+        ok = m is not None
+        if ok:
+            # one side is the data's length, and the slice written ends at that very value
+            sides = [pr.of_operand(x) for x in m]
+            ok = any(any(r[0] == "call" and (r[1].endswith("::packed_len") or r[1].endswith("::len")) for r in sd) for sd in sides)
+            ends = []
+            for bi_, si_, st_ in q.aggregates(b, None):
+                if st_["rv"].get("ak") == "adt" and last_seg_(st_["rv"].get("adt")) in ("Range", "RangeTo"):
+                    e_ = q.agg_field(st_, "end")
+                    if e_ is not None and q._same_operand_value(b, e_, m_op):
+                        ends.append(st_["place"]["l"])
+            idx = [c for c in b.calls() if c.is_("Index::index") and (op_place(c.args[1]) or {}).get("l") in ends]
+            ok = ok and bool(idx)
     rep.ob(P, "CreatedFrame::push_pdu_slice_rest:length-is-slice-written" + tag, ok, "push_pdu_slice_rest announces min(space, data length) and writes exactly bytes[0..that]", loc=b.span, how="dataflow")
 
     # siblings agree on the sequence of effects
